@@ -328,8 +328,11 @@ class Interp:
             if not core.cur().killed:
                 self.w.observe(path, "abort", type(e).__name__, op=kind)
                 if type(e).__name__ in ("SuspendExecution", "TimedSuspendExecution"):
+                    sched = getattr(e, "scheduled_timestamp", None)
                     self.w.parked.append({"inv": self.d.inv, "path": path, "tick": self.d.tick(),
-                                          "thread": core.cur().me().name, "op": kind})
+                                          "thread": core.cur().me().name, "op": kind,
+                                          "vt": round(self.d.now() - 1_700_000_000.0, 4),
+                                          "due": None if sched is None else round(sched - 1_700_000_000.0, 4)})
             raise
         extra = {}
         if kind in ("parallel", "map"):
@@ -606,6 +609,14 @@ def _check_fn(spec, state, ent):
             d = dict(state)
             d["n"] = d.get("n", 0) + 1
             return d
+        return state
+    if f == "dictinc-inplace":
+        if isinstance(state, dict):
+            state["n"] = state.get("n", 0) + 1     # mutates and returns the very object it was given
+        return state
+    if f == "append-inplace":
+        if isinstance(state, list):
+            state.append(len(state))
         return state
     if f == "id":
         return state
